@@ -1,6 +1,5 @@
 //! C14 — a claimed allocator is inert until the claim ends, then resumes.
 use crate::common::*;
-use crate::step::Win;
 use bump_scope::alloc::Allocator;
 use bump_scope::settings::BumpAllocatorSettings;
 use bump_scope::{BaseAllocator, Bump};
@@ -26,7 +25,8 @@ where
     let pos0 = addr(bump.stats().current_chunk().unwrap().bump_position());
     let allocated0 = bump.stats().allocated();
 
-    let lg = any_layout(16, 4);
+    // with budget the guard's request is concrete and cannot fit in the 16-byte chunk (chunk switch certain, DESIGN.md 2.8)
+    let lg = if guard_budget == 1 { Layout::from_size_align(24, 8).unwrap() } else { any_layout(16, 4) };
     kani::assume(lg.size() > 0);
     let (g_addr, g_val, g_off, pos_guard_end, chunk_guard_end);
     {
